@@ -9,7 +9,7 @@ LEVEL = 'exploration'
 RULE = ('E1 exhaustive product: every (type, value) of universe slices LEAF,BIG,TAGS,REC,OF,CH,NEST; DER output '
         'compared byte-for-byte with the reference DER encoder (base-10 REAL by value); BER output in the four '
         'corners defMode x maxChunkSize {0,2} (+1000 for BIG) and CER output read back by the independent '
-        'reader; CER output additionally checked against the canonical-form rules. Distinct = distinct digest '
+        'reader; CER output additionally checked against the canonical-form rules; DER and CER output is the same when the caller passes defMode / maxChunkSize options. Distinct = distinct digest '
         'of (T, v, codec config). Plus REAL sweep: 16 mantissas x sign x exponents -26..26 (thorough -70..70) '
         'x binEncBase {2, 8, 16, automatic}: BER output read by the reference reader, compared exactly.')
 ASSUMPTIONS = [
@@ -45,6 +45,25 @@ def check_case(c, tier, R):
             else:
                 for f in feats:
                     R.features[f] += 1
+    # --- the canonical encoders fix length form and segmentation themselves: caller options cannot change the bytes
+    if U.has_string(c.T) or c.T[0] not in ('BOOL', 'INT', 'NULL', 'OID', 'REAL', 'ENUM'):
+        for codec, opts in (('der', {'defMode': False, 'maxChunkSize': 1}), ('der', {'maxChunkSize': 2}),
+                            ('cer', {'defMode': True, 'maxChunkSize': 3})):
+            plain = c.encode(codec)
+            if plain[0] != 'ok':
+                continue
+            R.evaluations += 1
+            R.nontrivial((c.T, M.freeze(c.v), codec, 'options', tuple(sorted(opts.items()))))
+            st2 = c.encode(codec, **opts)
+            feats = c.feats | {'enc:' + codec, 'cfg:caller_options'}
+            if st2[0] == 'exc':
+                R.violation('encode.error', c.record(enc=codec, opts=opts), CM.exc_text(st2[1]), 'encoding succeeds',
+                            pyasn1_site(st2[1]), feats, c.idx)
+            elif st2[1] != plain[1]:
+                R.violation(codec + '.options_change_bytes', c.record(enc=codec, opts=opts), st2[1][:80].hex(), plain[1][:80].hex(),
+                            codec + '.encoder', feats, c.idx)
+            else:
+                R.features['cfg:caller_options'] += 1
     # --- CER: value + canonical-form rules
     R.evaluations += 1
     R.nontrivial((c.T, M.freeze(c.v), 'cer'))
